@@ -498,18 +498,16 @@ def _scope_group_commands():
     from sim import tracing
     from bardolph.vm import machine
     from bardolph.controller import light_set
-    vm = ('Machine._color_group', 'Machine._color_location',
-          'Machine._power_group', 'Machine._power_location',
-          'Machine._color_multiple', 'Machine._power_multiple')
+    vm = tuple(q for f, q, _o in _group_functions() if f == 'machine.py')
     tracing.scope_module(machine, only=vm + (
         'Machine.run', 'Machine.stop', 'Machine._wait', 'Machine.reset'),
         instructions=vm + ('Machine.stop', 'Machine.reset'))
-    ls = ('LightSet.get_light', 'LightSet.get_group_lights',
-          'LightSet.get_location_lights', 'LightSet._garbage_collect',
-          'LightSet._remove_memberships')
+    # the whole directory class: look-ups, re-discovery and expiry
+    ls = tuple('LightSet.' + nm for nm, obj in vars(
+        light_set.LightSet).items() if callable(obj)
+        or isinstance(obj, staticmethod))
     tracing.scope_module(light_set, only=ls + (
-        '_light_refresh', '_start_light_refresh', 'LightSet.refresh'),
-        instructions=ls)
+        '_light_refresh', '_start_light_refresh'), instructions=ls)
     _SCOPED.append(True)
 
 
@@ -526,8 +524,12 @@ def _execute_expiry(sc, chooser):
         'brightness 5 {} end\n{}'.format(
             pop[sc['slow']]['label'], ' '.join(sc['cmds']),
             _sentinel_stmt(pop, sc['sentinel']))
-    src, first = inspect.getsourcelines(ls_mod.LightSet._garbage_collect)
-    gc_lines = set(range(first, first + len(src)))
+    # where the refresh thread is held: inside the public LightSet.refresh(),
+    # once its re-discovery is done and before the expiry pass
+    src, first = inspect.getsourcelines(ls_mod.LightSet.refresh)
+    after = [k for k, ln in enumerate(src) if 'discover' in ln]
+    k0 = (after[0] + 1) if after else 2
+    gc_lines = set(range(first + k0, first + len(src)))
 
     def main(sim):
         net, ls, ok = env.build_world(
@@ -624,35 +626,45 @@ def _execute_expiry(sc, chooser):
 
 def _in_group_command(tag):
     # bytecode tags carry the function name, line tags the line number
+    lines, names = _group_lines()
     if len(tag) >= 3 and isinstance(tag[1], str):
-        return tag[1] in ('_color_group', '_color_location', '_power_group',
-                          '_power_location', '_color_multiple',
-                          '_power_multiple', 'get_light', 'get_group_lights',
-                          'get_location_lights', '<listcomp>')
-    return (tag[0], tag[1]) in _group_lines()
+        return tag[1] in names
+    return (tag[0], tag[1]) in lines
 
 
 _GROUP_LINES = {}
 
 
+def _group_functions():
+    """The VM's group/location command handlers (found by what they are
+    called, whatever that is exactly) and the directory's public look-ups."""
+    import re
+    from bardolph.vm import machine
+    from bardolph.controller import light_set
+    out = []
+    for nm, obj in vars(machine.Machine).items():
+        if callable(obj) and re.search('group|location|multiple', nm):
+            out.append(('machine.py', 'Machine.' + nm, obj))
+    for nm in ('get_light', 'get_group_lights', 'get_location_lights'):
+        obj = vars(light_set.LightSet).get(nm)
+        if obj is not None:
+            out.append(('light_set.py', 'LightSet.' + nm, obj))
+    return out
+
+
 def _group_lines():
     if not _GROUP_LINES:
         import inspect
-        from bardolph.vm import machine
-        from bardolph.controller import light_set
-        out = set()
-        for fname, cls, names in (('machine.py', machine.Machine, (
-                '_color_group', '_color_location', '_power_group',
-                '_power_location', '_color_multiple', '_power_multiple')),
-                ('light_set.py', light_set.LightSet, (
-                    'get_light', 'get_group_lights',
-                    'get_location_lights'))):
-            for nm in names:
-                fn = inspect.unwrap(getattr(cls, nm))
+        lines, names = set(), set()
+        for fname, qual, obj in _group_functions():
+            fn = inspect.unwrap(obj)
+            try:
                 src, first = inspect.getsourcelines(fn)
-                out.update((fname, k) for k in range(first,
-                                                     first + len(src)))
-        _GROUP_LINES['v'] = out
+            except (OSError, TypeError):
+                continue
+            lines.update((fname, k) for k in range(first, first + len(src)))
+            names.add(fn.__name__)
+        _GROUP_LINES['v'] = (lines, names)
     return _GROUP_LINES['v']
 
 
